@@ -9,6 +9,7 @@ import (
 
 	"cosmossdk.io/math"
 	sdk "github.com/cosmos/cosmos-sdk/types"
+	"github.com/cosmos/gogoproto/proto"
 
 	ophosttypes "github.com/initia-labs/OPinit/x/ophost/types"
 
@@ -468,6 +469,45 @@ func c17HandlerLayouts(report func(*engine.Violation, string), states, evals *in
 					if m.mutated() {
 						report(tagged(viol("verification-never-modifies-caller-bytes", "%s modified the caller's message bytes", name), "function", "FinalizeTokenWithdrawal"), name)
 					}
+				}
+			}
+		}
+	}
+	// CreateBridge derives the bridge escrow address: for every spelling of the role addresses and every
+	// layout of the metadata bytes the caller's message must come back byte-identical, and the account
+	// created must be the documented address of the returned id
+	for _, pu := range []bool{false, true} {
+		for _, cu := range []bool{false, true} {
+			for _, lay := range allLayouts(1) {
+				sp := func(n string, up bool) string {
+					if up {
+						return strings.ToUpper(world.Addr(n).String())
+					}
+					return world.Addr(n).String()
+				}
+				m := c17Layout([][]byte{[]byte("c17-metadata")}, lay)
+				cfg := world.BridgeConfig("proposer", "challenger", 10*time.Second)
+				cfg.Proposer, cfg.Challenger, cfg.Metadata = sp("proposer", pu), sp("challenger", cu), m.slices[0]
+				msg := ophosttypes.NewMsgCreateBridge(world.Addr("creator").String(), cfg)
+				before, _ := proto.Marshal(msg)
+				bctx, _ := ctx.CacheContext()
+				r := w.Deliver(bctx, msg)
+				after, _ := proto.Marshal(msg)
+				*states++
+				*evals++
+				name := fmt.Sprintf("CreateBridge(proposer-upper-case=%v,challenger-upper-case=%v,metadata-layout=%v)", pu, cu, lay)
+				if !r.OK() {
+					verdicts["create-bridge-rejected"]++
+					report(tagged(viol("verdict-depends-only-on-byte-values", "%s: rejected: %v", name, r.Err), "function", "CreateBridge"), name)
+					continue
+				}
+				verdicts["create-bridge-accepted"]++
+				id := r.Resp.(*ophosttypes.MsgCreateBridgeResponse).BridgeId
+				if !w.AK.HasAccount(bctx, sdk.AccAddress(ref.BridgeAddress(id))) {
+					report(tagged(viol("bridge-address-format", "%s: no account at the documented escrow address of bridge %d", name, id), "function", "CreateBridge"), name)
+				}
+				if !bytes.Equal(before, after) || m.mutated() {
+					report(tagged(viol("verification-never-modifies-caller-bytes", "%s modified the caller's message (%x -> %x)", name, before, after), "function", "CreateBridge"), name)
 				}
 			}
 		}
